@@ -680,7 +680,10 @@ void parseFrame(void *frame, void *iface_ctx) {
         return;
     }
 
-    if (header->opcode == opcode_discover) {
+    if (header->tos != tos_discovery && header->tos != tos_quick_discovery) {
+        /* Opcode numbers are per service: 0x00/0x01 mean Discover/Hello only
+         * for the two discovery services. */
+    } else if (header->opcode == opcode_discover) {
         lltd_discover_upper_header_t *disc_header =
             (lltd_discover_upper_header_t *)((uint8_t *)frame + sizeof(*header));
         uint16_t generation_host = lltd_ntohs(disc_header->generation);
